@@ -44,6 +44,8 @@ func runC05(c *Collector, r *Rng, thorough bool) {
 		{"DSign1U", "8444a1054101a1064102f64100"}, {"DSignature", "8344a1054101a10641024100"},
 		{"DSignMsg", "d8628444a1054101a1064102f6818340a04100"}, {"DSignMsg", "d8628440a0f6818344a1064101a10541024100"},
 		{"DSign1", "d28440a1078344a1054101a10641024100f64100"}, {"DSign1", "d28440a107818344a1054101a10641024100f64100"},
+		// fixed (F10): a tagged item is not a countersignature list
+		{"DUnprot", "a107d862818340a04101"}, {"DUnprot", "a107c6818340a04101"}, {"DUnprot", "a10bd862818340a04101"},
 		// content type / typ text rules
 		{"DProt", "43a11060"}, {"DUnprot", "a11060"}, {"DProt", "43a10360"}, {"DSign1", "d28443a11060a0f64100"},
 	} {
